@@ -14,8 +14,9 @@ import GrassProofs.Lemmas.CalcParse3
     * `o.coerced = false` — the simplification did not use Sass's legacy rule that inside min()/max() a
       unitless number combines with any unit (`is_comparable_to`, calculation.rs:97,141,341); such
       sources have no CSS value to preserve;
-    * `cfg.clampCss = true` — the specified `clamp` (CSS `max(MIN, min(VAL, MAX))`); the code as it
-      stands (`Cfg.now`) differs when `MAX < MIN < VAL` (known finding D40, witness below);
+    * `cfg.clampCss = true` — `clamp` with the `MAX < MIN → MIN` test, i.e. the code as it stands
+      (`Cfg.now`, after `fix:` 26a5ec6); the cascade found before (`Cfg.asFound`) differs when
+      `MAX < MIN < VAL` (D40, witness `C16_asFound_clamp_order`);
     * division by zero is the outcome `err nonFinite` (the real code prints `Infinitypx`/`NaN`), so an
       `ok` result never contains one.
 -/
@@ -283,31 +284,36 @@ theorem C16_clamp_value (ρ : Env) (hw : ρ.wf) (cfg : Cfg) (hcss : cfg.clampCss
     evalCalc ρ o.arg = evalCalc ρ (.calculation .clamp (CalcArgs.ofList args)) :=
   clampFn_value ρ hw cfg hcss args o h hco
 
-/-- where the code as it stands and the specified `clamp` agree: whenever `MIN ≤ MAX` does not fail
-    together with `MIN < VAL` (all three converted to VAL's unit). -/
-theorem C16_clamp_now_eq_spec (cfg : Cfg) (mn v mx : Num)
-    (h : ∀ mn' mx', convert mn.n mn.u v.u = some mn' → convert mx.n mx.u v.u = some mx' →
-          ¬ (mx' ≤ mn' ∧ mn' < v.n)) :
+/-- where the cascade found before `fix:` 26a5ec6 and the current one agree: everywhere except
+    `MAX < MIN < VAL` (MAX in MIN's unit, MIN in VAL's unit). -/
+theorem C16_clamp_old_eq_now (cfg : Cfg) (mn v mx : Num)
+    (hs : (convert mx.n mx.u mn.u).isSome = true)
+    (h : ∀ mn' mxm, convert mn.n mn.u v.u = some mn' → convert mx.n mx.u mn.u = some mxm →
+          ¬ (mxm < mn.n ∧ mn' < v.n)) :
     clampReduce { cfg with clampCss := false } mn v mx = clampReduce { cfg with clampCss := true } mn v mx := by
   unfold clampReduce
   cases h1 : convert mn.n mn.u v.u <;> cases h2 : convert mx.n mx.u v.u <;> simp only []
   rename_i mn' mx'
-  have := h mn' mx' h1 h2
-  by_cases c1 : v.n ≤ mn'
-  · simp [c1]
-  · have c1' : mn' < v.n := Rat.not_le.mp c1
-    have c2 : ¬ mx' ≤ mn' := fun x => this ⟨x, c1'⟩
-    simp [c1, c2]
+  cases h3 : convert mx.n mx.u mn.u with
+  | none => simp [h3] at hs
+  | some mxm =>
+    have := h mn' mxm h1 h3
+    by_cases c1 : v.n ≤ mn'
+    · simp [c1]
+    · have c1' : mn' < v.n := Rat.not_le.mp c1
+      have c2 : ¬ mxm < mn.n := fun x => this ⟨x, c1'⟩
+      simp [c1, c2]
 
 private def d40Src : CalcArg :=
   .calculation .clamp (.cons (.number 5 (CUnit.single .px)) (.cons (.number 10 (CUnit.single .px))
     (.cons (.number 3 (CUnit.single .px)) .nil)))
 
-/-- Known finding D40: as coded (`value <= min → min; value >= max → max`, calculation.rs:196–204),
-    `clamp(5px, 10px, 3px)` becomes `3px`; CSS `max(5px, min(10px, 3px))` is `5px`. -/
+/-- D40 (fixed in /repo by 26a5ec6): the cascade found before (`value <= min → min; value >= max →
+    max`) turned `clamp(5px, 10px, 3px)` into `3px`; CSS `max(5px, min(10px, 3px))` is `5px`, which is
+    what the code as it stands gives. -/
 theorem C16_asFound_clamp_order :
-    compile Cfg.now d40Src = .ok ⟨.number 3 (CUnit.single .px), false⟩ ∧
-    compile Cfg.spec d40Src = .ok ⟨.number 5 (CUnit.single .px), false⟩ ∧
+    compile Cfg.asFound d40Src = .ok ⟨.number 3 (CUnit.single .px), false⟩ ∧
+    compile Cfg.now d40Src = .ok ⟨.number 5 (CUnit.single .px), false⟩ ∧
     evalCalc Env.unit (.number 3 (CUnit.single .px)) ≠ evalCalc Env.unit d40Src := by
   refine ⟨by decide +kernel, by decide +kernel, by decide +kernel⟩
 
@@ -323,6 +329,16 @@ theorem C16_compile_value (ρ : Env) (hw : ρ.wf) (cfg : Cfg) (hcss : cfg.clampC
   split at hp
   · cases hp; exact visitValue_value ρ hw cfg hcss src false o hv hco
   · cases hp
+
+/-- **The property for the code as it stands** (`Cfg.now`): no switch left to assume. -/
+theorem C16_compile_value_now (ρ : Env) (hw : ρ.wf) (src : CalcArg) (o : Out)
+    (h : compile Cfg.now src = .ok o) (hco : o.coerced = false) :
+    evalCalc ρ o.arg = evalCalc ρ src :=
+  C16_compile_value ρ hw Cfg.now rfl src o h hco
+
+/-- the code as it stands never panics on a calculation. -/
+theorem C16_never_panics_now (src : CalcArg) : compile Cfg.now src ≠ .panic :=
+  C16_never_panics Cfg.now rfl src
 
 private def exSrc : CalcArg :=
   .calculation .calc (.cons (.operation (.operation (.number 1 (CUnit.single .inch)) .plus
@@ -417,11 +433,11 @@ example : compile Cfg.spec (.calculation .calc (.cons (.operation (.number 1 (CU
 private def d41Src : CalcArg :=
   .calculation .calc (.cons (.operation (.number 1 CUnit.none) .plus (.number 2 (CUnit.single .px))) .nil)
 
-/-- Known finding D41: `has_possibly_compatible_units` (sass_number.rs:223) treats a unitless number as
-    possibly compatible with every unit, so `calc(1 + 2px)` is emitted as is; the reference rule
-    (`strict`) rejects it. -/
+/-- D41 (fixed in /repo by b057818): `has_possibly_compatible_units` used to treat a unitless number
+    as possibly compatible with every unit, so `calc(1 + 2px)` was emitted as is; the code as it
+    stands rejects it. -/
 theorem C16_asFound_unitless_accepted :
-    compile Cfg.now d41Src = .ok ⟨d41Src, false⟩ ∧ compile Cfg.spec d41Src = .err .incompatible := by
+    compile Cfg.asFound d41Src = .ok ⟨d41Src, false⟩ ∧ compile Cfg.now d41Src = .err .incompatible := by
   constructor <;> decide +kernel
 
 /-! ### printing and re-reading -/
